@@ -26,7 +26,7 @@ CHECKS["C08"] = dict(
     ref="DESIGN.md section 7 (C08)")
 CHECKS["C13"] = dict(
     level="proof",
-    technique="contract-based deductive verification of _coerce_int, _expected_nodes (loop invariant), ingest dispatch and a z3 commutation lemma over the abstract view; verdict rules and ingesters only by a bounded run-time-contract tier over real traces",
-    text="Proved for all inputs: _coerce_int (int/None totality), _expected_nodes (= set of node_uuid of dict entries, None iff empty; loop invariant), TraceAggregator.ingest (each record_type reaches exactly its ingester, unknown types change nothing), and pairwise commutation/idempotence of the five update functions on the abstract run view. finalize_run/finalize_launch and the _ingest_* bodies are NOT proved (symbolic execution does not terminate within budget): a bounded tier ingests every prefix and seeded permutations of real traces (ok run, failing run, launch) and compares with the documented verdict.",
-    note="The bounded part is exploration, not proof; the lift from pairwise commutation to all permutations (List.Perm.foldl_eq') and the link code-update = abstract update for the ingesters are assumptions.",
+    technique="contract-based deductive verification of the aggregator (finalize_run, the five ingesters, dispatch, _expected_nodes, _coerce_int) with loop invariants and frame conditions, plus a z3 commutation lemma over the abstract view; bounded prefix/permutation tier on real traces as cross-check",
+    text="Proved for arbitrary aggregator states/records: finalize_run verdict = documented verdict (complete iff both edges, missing edge named, missing/orphan nodes = sorted set differences against the expected set, verdict-relevant state untouched so finalising twice agrees); every _ingest_* sets exactly its flag/status on the addressed aggregate (created if absent), keeps the other lifecycle flag, the node table and all other runs/launches (frame conditions), links runs to launches; ingest dispatches each record type to its ingester; _expected_nodes/_coerce_int contracts; pairwise commutation and idempotence of the update functions on the abstract view. finalize_launch is covered only by the bounded tier.",
+    note="Assumed: producer record shapes (ids/timestamps strings or absent), typed aggregate fields, distinct keys map to distinct aggregate objects, lift from pairwise commutation to permutations (List.Perm.foldl_eq'). The bounded tier (real traces x prefixes x seeded permutations) is exploration and is reported separately.",
     ref="DESIGN.md section 7 (C13)")
